@@ -17,16 +17,27 @@ def gen_cases(rng, n, ops=DENSE_OPS):
         g = Gen(rng, vars_=rng.choice([("x",), ("x", "y"), ("x", "y", "z")]), S=S, ops=ops, ivs=IVS, bool_atoms=True,
                 arith=("add", "sub", "abs", "neg") + (("mul",) if S == 1 else ()))
         phi = g.formula(rng.choice([1, 1, 2, 2, 3]))
+        r_ = rng.random()
+        if r_ < 0.15:       # nested unbounded operators (they share accumulators in the implementation)
+            a_, b_ = g.formula(1), g.formula(1)
+            o1, o2 = rng.choice(["ev", "alw", "once", "hist"]), rng.choice(["ev", "alw", "once", "hist"])
+            phi = un(o1, bi(rng.choice(["and", "or", "implies"]), a_, un(o2, b_)))
+        elif r_ < 0.3:      # bounded operators directly on a signal with many samples
+            iv = rng.choice(IVS + [(0, 5), (1, 6), (2, 4)])
+            op = rng.choice(["evT", "alwT", "onceT", "histT", "untilT", "sinceT"])
+            phi = un(op, g.atom(), *iv) if op in UN_TIMED else bi(op, g.atom(), g.atom(), *iv)
+            if rng.random() < 0.4:
+                phi = un("not", phi)
         if not vars_of(phi):
             continue                      # no input signal: the common input domain is not defined
         vs = vars_of(phi)
-        end = rng.choice([3, 5, 8, 10])
+        end = rng.choice([3, 5, 8, 10, 12])
         w = {}
         # all variables share the first and the last time-stamp (what a past window sees before the common domain,
         # when one variable starts earlier than another, is not fixed by the property); interior break-points differ
         t0 = rng.choice([0, 0, 0, 1, 2]) if rng.random() < 0.3 else 0
         for v in vs:
-            w[v] = gen_signal(rng, rng.choice([1, 2, 3, 4, 6]), t0=min(t0, end - 1), S=S, end=end)
+            w[v] = gen_signal(rng, rng.choice([1, 2, 3, 4, 6, 8]), t0=min(t0, end - 1), S=S, end=end)
         fac = rng.choice(["StlDenseTimeSpecification", "StlDenseTimeOfflineSpecification"])
         cases.append(case([ct_obj(phi, S, vs, factory=fac)], [ev_parse(), ev_ct("evaluate", w, flt=rng.random() < 0.5)]))
     return cases
@@ -36,7 +47,7 @@ def main():
     rep = core.Report("C04")
     quick = core.tier() == "quick"
     rng = random.Random(core.seed() * 7919 + 4)
-    cases = gen_cases(rng, 800 if quick else 20000)
+    cases = gen_cases(rng, 1200 if quick else 30000)
     traces = runner.run_cases(cases)
     vs_, gen, dist = core.validate("C04", traces, module="TraceCt")
     rep.add_traces(traces, vs_, gen, dist, nontrivial_key=lambda c: c["objs"][0]["text"] + str(c["events"][-1]["w"]))
